@@ -56,6 +56,16 @@ type pcase struct {
 	IncY  int             `json:"incy"`
 	B     bool            `json:"b"`
 	Skip  bool            `json:"skip"`
+	// fields of the SliceExt.tla families
+	Open bool     `json:"open,omitempty"` // the documentation leaves the answer open
+	Ex   []int    `json:"ex,omitempty"`   // per-element exponents
+	BB   []bool   `json:"bb,omitempty"`   // several boolean answers
+	M    int64    `json:"m,omitempty"`    // a magnitude bound
+	Lens []int    `json:"lens,omitempty"` // argument lengths
+	G    string   `json:"g,omitempty"`    // sub-function / kind
+	IncD int      `json:"incd,omitempty"` // destination increment
+	Offs []int    `json:"offs,omitempty"` // start indices ix, iy, idst
+	Cls  []string `json:"cls,omitempty"`  // value classes
 	// set when a failure case is replayed alone
 	Only string `json:"only,omitempty"` // binding name
 	Off  *int   `json:"off,omitempty"`
@@ -258,6 +268,7 @@ type runner struct {
 	sum   *core.Summary
 	offs  []int
 	noted map[string]bool
+	iso   bool // this process executes calls that may kill it (see isoCall)
 }
 
 func (r *runner) fail(c *pcase, bind string, off int, mode, kind, msg string) {
@@ -476,6 +487,9 @@ func replay(in *core.Lines, args []string, seed int64, sum *core.Summary) error 
 		if a == "offs=few" {
 			r.offs = []int{0, 1, 3}
 		}
+		if a == "iso" {
+			r.iso = true
+		}
 	}
 	for {
 		line, ok := in.Next()
@@ -501,6 +515,17 @@ func replay(in *core.Lines, args []string, seed int64, sum *core.Summary) error 
 		if b, ok := nrm64[c.F]; ok {
 			runScalar(r, &c, b, c.E, normCmp[float64](&c, c.E, 52, -1074))
 		}
+		if b, ok := vec32[c.F]; ok {
+			runVec(r, &c, b, 0)
+		}
+		if b, ok := sc32[c.F]; ok {
+			runScalar(r, &c, b, 0, exactScalar[float32](&c))
+		}
+		if b, ok := nrm32[c.F]; ok {
+			runScalar(r, &c, b, c.E32, normCmp[float32](&c, c.E32, 23, -149))
+		}
+		runExt(r, &c)
+		runCNorm2Kern(r, &c)
 		runIndex(r, &c)
 		runInc(r, &c)
 		runComplex(r, &c)
